@@ -14,6 +14,7 @@ import (
 // a Q history).  All goroutines are released together onto the cold package.
 // NewMnemonic uses the default source here (swapping the source would itself be
 // a write racing with readers), so its result is reported by shape only.
+// A line "PRE op|op|..." is a prelude: those ops run sequentially first.
 func raceMain(args []string) {
 	f, err := os.Open(args[0])
 	if err != nil {
@@ -22,10 +23,18 @@ func raceMain(args []string) {
 	sc := bufio.NewScanner(f)
 	sc.Buffer(make([]byte, 1<<20), 1<<28)
 	var progs [][]string
+	var pre []string
 	for sc.Scan() {
 		if l := strings.TrimSpace(sc.Text()); l != "" {
+			if strings.HasPrefix(l, "PRE ") { // ops run one after another before any goroutine exists (scripted sources allowed)
+				pre = append(pre, strings.Split(l[4:], "|")...)
+				continue
+			}
 			progs = append(progs, strings.Split(l, "|"))
 		}
+	}
+	for _, o := range pre {
+		runOp(strings.Fields(o))
 	}
 	results := make([][]string, len(progs))
 	var start, done sync.WaitGroup
